@@ -158,7 +158,17 @@ def plan_for_source(kind, src, tier, rnd, idx):
     nclass = (6 if kind == "L" else 2) if tier == "quick" else 0
     for _ in range(min(nclass, len(ckeys))):
         cl = classes[rnd.choice(ckeys)]
-        cases.append(Case(cid(), kind, src, 0, NOFILT, "", [rnd.choice(cl)], cls="fault-class"))
+        # every other faulted case loads twice in its process: what the first load leaves behind must not change the second (C18-r8)
+        cases.append(Case(cid(), kind, src, 0, NOFILT, "r" if rnd.random() < 0.5 else "", [rnd.choice(cl)], cls="fault-class"))
+    # the per-CPU files that feed the CPU kinds (cpufreq/, acpi_cppc/, cpu_capacity) substitute for one another when one is
+    # missing: every such class is removed once per snapshot in both tiers, with two loads in the same process
+    for k in ckeys:
+        if "cpufreq" in k or "acpi_cppc" in k or "cpu_capacity" in k:
+            cl = classes[k]
+            # the first member (cpu0 / policy0: the one probed first, while lazily decided choices are still open), and sometimes another
+            cases.append(Case(cid(), kind, src, 0, NOFILT, "r", [cl[0]], cls="fault-cpukind-input"))
+            if len(cl) > 1 and rnd.random() < 0.3:
+                cases.append(Case(cid(), kind, src, 0, NOFILT, "r", [rnd.choice(cl[1:])], cls="fault-cpukind-input"))
     # the few files outside sys/devices/system (proc/cpuinfo, proc/mounts, proc/self/cpuset, proc/self/cgroup, cgroup mount
     # files, ...) select whole code paths (cgroup name lookup, allowed-resources source): every proc/ file is removed singly
     # in both tiers, cgroup mount files two per snapshot (quick) or up to 40 (thorough)
